@@ -14,6 +14,7 @@ Definition holder (th : thread) : option N :=
   | Some n => Some n
   | None => match t_stack th with
             | C1 n :: _ | C2 n :: _ => Some n
+            | GCool3 n :: _ | GBack n :: _ => Some n   (* claimed tentatively: checking the writers *)
             | _ => None
             end
   end.
@@ -56,7 +57,7 @@ Definition is_env (v bound : N) : Prop := exists e, e < bound /\ v = env_val e.
 
 Definition pc_nodes_ok (bound : N) (p : pc) : Prop :=
   match p with
-  | GCool1 w | GCool2 w | GCool3 w | GClaim w | C1 w | C2 w | C3 w => w < bound
+  | GCool1 w | GCool2 w | GCool3 w | GBack w | GClaim w | C1 w | C2 w | C3 w => w < bound
   | GPush h => h <= bound
   | P3 _ _ w | PE0d _ _ w | PE0e _ _ w | PE1 _ _ w | P5 _ _ w => w < bound
   | PE2 _ _ w ctl | PE3 _ _ w ctl | WHelpRepl _ _ w ctl | PE4 _ _ w ctl _ => w < bound /\ is_gen ctl
@@ -113,7 +114,7 @@ Definition stack_shape (stk : list pc) : Prop :=
 (** Node::get and start_cooldown frames run with no node assigned to the thread. *)
 Definition is_get (p : pc) : bool :=
   match p with
-  | GHead | GCool1 _ | GCool2 _ | GCool3 _ | GClaim _ | GPush0 | GPush _
+  | GHead | GCool1 _ | GCool2 _ | GCool3 _ | GBack _ | GClaim _ | GPush0 | GPush _
   | C1 _ | C2 _ | C3 _ => true      (* start_cooldown runs after the node was given up *)
   | _ => false
   end.
